@@ -649,3 +649,90 @@ def replay_case(c, fx, run_job, fmt_bound):
         exp = b"".join(spec_entry(r, ents[i], off) for i in sel)
         return True, out == exp, "%d bytes, first difference at %d" % (len(out), c09.first_diff(out, exp))
     return False, False, ""
+
+
+# ----------------------------------------------------------------------------- more containers: tar formats / long member paths, old modification times
+
+OLD_MTIME = 978307200          # 2001-01-01T00:00:00Z: older than every entry of every fixture and than every -a bound used
+TAR_PATH_LENGTHS = (20, 99, 100, 101, 122, 255, 300)
+
+
+def member_path(length):
+    """a member path of exactly `length` bytes that ends in system.journal, made of directory components of at most 40 bytes
+    (the usual layout journal/<machine id>/system@<id>-<seq>-<time>.journal is 122 bytes)"""
+    base = "system.journal"
+    need = length - len(base)
+    comps = []
+    while need > 0:
+        c = min(need - 1, 40)
+        if need - 1 - c == 1:          # never leave a lone '/' for the next round
+            c -= 1
+        comps.append(("journal6c6ab73d82464b9493892c81fc732b3a" * 2)[:c] + "/")
+        need -= c + 1
+    p = "".join(comps) + base
+    assert len(p) == length and "//" not in p and not p.startswith("/"), (length, p)
+    return p
+
+
+def extra_containers(scratch, fx, quick, only=None):
+    """[(label, path)]: the journal of fixture fx
+       * as the only member of tar archives in ustar / GNU / pax format under member paths of several lengths around the
+         100-byte header name field (member and archive modification times OLD_MTIME);
+       * as a plain copy and gz / bz2 / xz (python) / lz4 (the shipped one) copies whose file-system modification time —
+         and gzip header MTIME — is OLD_MTIME, i.e. older than every entry.
+    Deterministic (the replay regenerates a container from its label)."""
+    import bz2, gzip, io, lzma, tarfile
+    out = []
+    name = fx["name"].replace("~", "_")
+    data = None
+
+    def want(label):
+        return only is None or label == only
+
+    def load():
+        nonlocal data
+        if data is None:
+            data = open(fx["plain"], "rb").read()
+        return data
+
+    tars = fx["name"] == "Ubuntu16" or (not quick and not fx.get("crafted"))
+    if tars:
+        for fname, fmt in (("ustar", tarfile.USTAR_FORMAT), ("gnu", tarfile.GNU_FORMAT), ("pax", tarfile.PAX_FORMAT)):
+            for ln in TAR_PATH_LENGTHS:
+                label = "tar(%s,path%d)" % (fname, ln)
+                if not want(label):
+                    continue
+                path = os.path.join(scratch, "%s_%s_%d.tar" % (name, fname, ln))
+                try:
+                    with tarfile.open(path, "w", format=fmt) as t:
+                        ti = tarfile.TarInfo(member_path(ln))
+                        ti.size = len(load())
+                        ti.mtime = OLD_MTIME
+                        ti.mode = 0o644
+                        t.addfile(ti, io.BytesIO(load()))
+                except ValueError:          # the format cannot hold a path of that length (ustar above 256 bytes)
+                    if os.path.exists(path):
+                        os.remove(path)
+                    continue
+                os.utime(path, (OLD_MTIME, OLD_MTIME))
+                out.append((label, path))
+    if fx["name"] in ("Ubuntu16", "Ubuntu22x3") or not quick:
+        makers = [("plain(old-mtime)", ".journal", lambda d: d),
+                  ("gz(old-mtime)", ".journal.gz", lambda d: gzip.compress(d, 1, mtime=OLD_MTIME)),
+                  ("bz2(old-mtime)", ".journal.bz2", lambda d: bz2.compress(d, 1)),
+                  ("xz(old-mtime)", ".journal.xz", lambda d: lzma.compress(d, format=lzma.FORMAT_XZ, preset=0))]
+        for label, ext, mk in makers:
+            if not want(label):
+                continue
+            path = os.path.join(scratch, "%s_oldmtime%s" % (name, ext))
+            with open(path, "wb") as f:
+                f.write(mk(load()))
+            os.utime(path, (OLD_MTIME, OLD_MTIME))
+            out.append((label, path))
+        lz4 = next((p for l, p in fx.get("containers", []) if l == "lz4"), None)
+        if lz4 and want("lz4(old-mtime)"):
+            path = os.path.join(scratch, "%s_oldmtime.journal.lz4" % name)
+            shutil.copyfile(lz4, path)
+            os.utime(path, (OLD_MTIME, OLD_MTIME))
+            out.append(("lz4(old-mtime)", path))
+    return out
